@@ -3,6 +3,7 @@ import PhysisModel.Proofs.MdlHeaders
 import PhysisModel.Proofs.MdlWriteBytes
 import PhysisModel.Model.MdlWrite
 import PhysisModel.Spec.MdlEdit
+import PhysisModel.Proofs.MdlEditParse
 /-!
 # C07 — written models re-read as the same model, including after edits
 -/
@@ -186,6 +187,79 @@ def parsedSample : Option MDL :=
 
 example : (parsedSample.map fun m => isV5 m.fileHeader.version &&
     modelDataOk m.fileHeader m.modelData && writesAfterHeader m) = some true := by
+  decide +kernel
+
+/-! ## parse ∘ write ∘ edits ∘ parse (edited models) -/
+
+/-- **After any non-empty history of `replace_vertices` / `remove_shape_meshes` calls supplied
+consistently, the written file re-parses as exactly the new geometry.**
+
+`a` is the model in the file the session starts from (`WF`, `Canonical`); `es` the abstract edit
+history, `a' = applyEdits a es` its meaning (`Spec/MdlEdit.lean`); `ces = cedits a es` the concrete
+API calls — the vertices passed to `replace_vertices` are the specification's decoding
+(`verticesOf`) of the new canonical stream bytes under the mesh's declaration, exactly as the
+check's driver builds them.  Side conditions: `editsOk` (every `replace_vertices` keeps the strides
+of the mesh — the API cannot change them), the final model is canonical (`Canonical a'`: canonical
+encodings, every mesh starts at its first sub-mesh's offset), every LOD in use has a mesh
+(`usedNonempty a'`), and the model **as `update_headers` lays it out** (`relayout a'`: same
+geometry, index sections padded to the next multiple of 16 strictly above, see
+`Spec/MdlRelayout.lean`) is well-formed — in particular its file stays below 4 GiB.
+
+Conclusion: `from_existing (encodeMdl a)` returns a model `m0`, and for **every** outcome `mE` of
+the edit calls on `m0` that returns, `write_to_buffer mE` returns a buffer whose re-parse `m1`
+reports exactly `view a'` — new vertices (after canonical encoding), indices, sub-mesh ranges,
+raw streams, shapes, names —, carries `mE`'s `file_header` and `model_data` unchanged, and the
+property's header predicate evaluated on the written file (`headerFlags`: vertex sections sized
+Σ count × stride, index sections 16-byte padded and holding the indices, non-empty sections after
+the runtime block and pairwise disjoint, every section inside the file) is `allOk`.  No bound on
+sizes or history length; nothing about the intermediate states is assumed beyond that the calls
+return.
+
+`_partial`: (1) histories containing `add_shape_mesh` are not covered; (2) a LOD in use without
+meshes is excluded (`update_headers` gives it a 16-byte index section that `Spec.encodeMdl` cannot
+express); (3) that the edit calls return (no overflow panic in `update_headers`) is a hypothesis;
+(4) the classes of the recorded findings `c07.writer-unsupported-layout` /
+`c06.blendweights-byte4` are excluded through `Canonical` (`writable` pairs only), as in
+`c07_write_parse`.  Proof: `Proofs/MdlEditParse.lean` (abstraction relation `Rep` kept by every
+edit, `update_headers` characterised through `HeaderOK` + `StartsFromSubmesh`, identification with
+`encodeMdl (relayout a')` on the LODs in use, frame lemmas for the stale rows of unused LODs and the
+stale per-part views, then `c07_write_parse` / `c06_parse_encode_partial`). -/
+theorem c07_edit_then_parse_partial (a : AbstractModel) (h : WF a = true) (hcan : Canonical a = true)
+    (v0 : View) (hv0 : view a = some v0)
+    (es : List AEdit) (hne : es ≠ []) (hes : editsOk a es = true)
+    (a' : AbstractModel) (ha' : applyEdits a es = some a')
+    (ces : List Edit) (hces : cedits a es = some ces)
+    (h' : WF (relayout a') = true) (hcan' : Canonical a' = true) (hne' : usedNonempty a' = true)
+    (v : View) (hv : view a' = some v) :
+    ∃ m0, fromExisting (encodeMdl a) = .ok m0 ∧
+      ∀ mE, ces.foldlM Mdl.applyEdit m0 = .ok mE →
+        ∃ buf m1, writeToBuffer mE = .ok buf ∧ fromExisting buf = .ok m1 ∧ m1.view = v ∧
+          m1.fileHeader = mE.fileHeader ∧ m1.modelData = mE.modelData ∧
+          headerFlags m1.fileHeader buf.length m1.lods = HeaderFlags.allOk := by
+  refine ⟨parsedOf a v0, parse_encode a h (canonical_noWeightsByte4 a hcan) v0 hv0, fun mE hE => ?_⟩
+  obtain ⟨buf, m1, h1, h2, h3, h4, h5, h6⟩ :=
+    edit_then_parse a h hcan v0 hv0 es hne hes a' ha' ces hces h' hcan' hne' v hv mE hE
+  exact ⟨buf, m1, h1, h2, h5, h3, h4, h6⟩
+
+/-- a two-edit history on `canonicalSample`: the mesh gets 3 new vertices (canonical records:
+Position / Normal Half4 with their 1.0 / 0.0 lanes, BiTangent, Color, 2 slack bytes), 6 indices,
+one sub-mesh `(0, 6)`; then `remove_shape_meshes` -/
+def sampleEdits : List AEdit :=
+  let r0 : Bytes := [0x00, 0x3C, 0x00, 0xC0, 0x01, 0x00, 0x00, 0x3C,
+                     0x00, 0x38, 0x00, 0x38, 0x00, 0xB8, 0x00, 0x00]
+  let r1 : Bytes := [1, 128, 254, 255, 10, 20, 30, 40, 0, 0]
+  [.replace 0 0 3 [⟨16, r0 ++ (r0 ++ r0)⟩, ⟨10, r1 ++ (r1 ++ r1)⟩] [0, 1, 2, 2, 1, 0] [(0, 6)],
+   .removeShapes]
+
+/-- non-vacuity of `c07_edit_then_parse_partial`: every hypothesis holds on `canonicalSample` with
+`sampleEdits`, and the concrete calls return -/
+example :
+    (match view canonicalSample, applyEdits canonicalSample sampleEdits,
+        cedits canonicalSample sampleEdits with
+     | some v0, some a', some ces =>
+       editsOk canonicalSample sampleEdits && WF (relayout a') && Canonical a' && usedNonempty a' &&
+         (view a').isSome && isOk (ces.foldlM Mdl.applyEdit (parsedOf canonicalSample v0))
+     | _, _, _ => false) = true := by
   decide +kernel
 
 end Physis.C07
